@@ -36,6 +36,8 @@ TraceNext ==
     /\ bad' = bad \cup {<<v[1], l, v[2]>> : v \in
                 (IF Line.a = "Probe" THEN (IF Line.present THEN {} ELSE {<<"C07_LaterEventsProceed", {Line.id}>>})
                  ELSE Coherence(Line.keys)
+                      \* (C17 "... together with all their index entries", C10: no entry outlives its record)
+                      \cup (IF KV!EntriesWithoutRecord(Line.keys) = {} THEN {} ELSE {<<"C17_EntryWithoutRecord", KV!EntriesWithoutRecord(Line.keys)>>})
                       \cup (IF Line.a \in {"Fault", "Kill"} /\ Line.keys # keys /\ Line.keys # Line.alt
                             THEN {<<"C07_Atomic", (Line.keys \ keys) \cup (keys \ Line.keys)>>} ELSE {}))}
     /\ l' = l + 1
